@@ -299,8 +299,7 @@ RepeatAfterSuppression ==
 (* the same as an action property (independent of `last`, usable with VIEW) *)
 RepeatAfterAct == \A n \in notices : \A m \in notices' :
     (m.id = n.id /\ m.occ = n.occ + 1) =>
-        /\ (m.lastRep # n.lastRep <=> (m.ra = 0 \/ m.lastOcc > n.lastRep + m.ra))
-        /\ m.lastRep \in {n.lastRep, m.lastOcc}
+        m.lastRep = IF m.ra = 0 \/ m.lastOcc > n.lastRep + m.ra THEN m.lastOcc ELSE n.lastRep
 RepeatAfterProp == [][RepeatAfterAct]_vars
 
 (* the bump: occurrence times on the timeNow path are strictly increasing *)
